@@ -559,6 +559,7 @@ class ASTCodeGenerator(object):
     }
 
     # UnaryOp(unaryop op, expr operand)
+    @with_parens
     def visit_UnaryOp(self, node):
         self._write(self.unary_operators[node.op.__class__] + ' ')
         self.visit(node.operand)
